@@ -128,6 +128,11 @@ func mainCheck(args []string) int {
 		return fail("contract files: " + err.Error())
 	}
 	loadMs := time.Since(start).Milliseconds()
+	if *verbose && *prop == "C11" {
+		for _, n := range e.genNotes {
+			fmt.Println("      gen-note:", n)
+		}
+	}
 	var re *regexp.Regexp
 	if *only != "" {
 		re = regexp.MustCompile(*only)
@@ -389,6 +394,11 @@ func mainCheck(args []string) int {
 			}
 			if x.top.NoOverflow {
 				assumptions = append(assumptions, "machine arithmetic treated as mathematical (overflow obligations waived) in "+shortKey(x.top.Key))
+			}
+		}
+		if *prop == "C11" {
+			for _, n := range e.genNotes {
+				assumptions = append(assumptions, "not covered by the generated pairing lemmas: "+n)
 			}
 		}
 		// obligations counted in evidence exclude known findings
